@@ -59,7 +59,7 @@ def plan(tier, seed):
             for i, p in enumerate(paths):
                 if tier == 'thorough' or (i + j + k) % 3 == 0:
                     cases.append({'tr': 'pty', 'fate': f, 'path': p, 'prelude': prelude})
-        for p in ('wait', 'eof-wait', 'kill-wait', 'kill-kill-wait'):
+        for p in ('wait', 'eof-wait', 'kill-wait', 'kill-kill-wait', 'send-wait', 'send-send-wait'):
             cases.append({'tr': 'popen', 'fate': f, 'path': p})
         cases.append({'tr': 'run', 'fate': f, 'path': 'run', 'u': (f[1] % 2 == 0)})
         if f[0] == 'exit' and (tier == 'thorough' or f[1] % 3 == 1):
@@ -363,6 +363,14 @@ def popen_case(case, acc, rng):
         acc.count('popen_cases')
         if path == 'eof-wait':
             c.expect(EOF)
+        if path.startswith('send'):
+            # the caller writes to the child once it is dead (and catches the broken pipe), and only then asks for
+            # the status
+            for _ in range(path.count('send')):
+                try:
+                    c.send(b'x\n')
+                except (OSError, ValueError):
+                    acc.count('popen_writes_to_dead_child_failed')
         if path.startswith('kill'):
             # late clean-up / escalation: signals sent to a child that is already dead (still unreaped) must not
             # spoil the later observation
